@@ -6,7 +6,8 @@ import py2lean
 import structure
 import tracegen
 
-MODULES = ["targets_leaves", "targets_comb", "targets_bisect", "targets_misc", "targets_dist", "targets_params", "targets_planar", "targets_bnaf"]
+AST_MODULES = ["targets_dast", "targets_vast"]
+MODULES = ["targets_leaves", "targets_comb", "targets_bisect", "targets_misc", "targets_dist", "targets_params", "targets_planar", "targets_bnaf", "targets_arrcomb"]
 
 def main(repo="/repo", outdir=None):
     here = os.path.dirname(os.path.abspath(__file__))
@@ -43,6 +44,15 @@ def main(repo="/repo", outdir=None):
     if old != res["text"]:
         open(path, "w").write(res["text"])
     report[targets_ast.NAME] = {"errors": res["errors"], "changed": old != res["text"], "targets": [sp["name"] + ".ast" for sp in targets_ast.SPECS]}
+    for m in AST_MODULES:  # further deep-AST files (C18): own header, let-ids offset by the module's ID_BASE
+        mod = importlib.import_module(m)
+        importlib.reload(mod)
+        res = py2ast.generate_ast(repo, mod.SPECS, header=mod.HEADER, id_base=mod.ID_BASE)
+        path = os.path.join(outdir, mod.NAME + ".lean")
+        old = open(path).read() if os.path.exists(path) else None
+        if old != res["text"]:
+            open(path, "w").write(res["text"])
+        report[mod.NAME] = {"errors": res["errors"], "changed": old != res["text"], "targets": [sp["name"] + ".ast" for sp in mod.SPECS]}
     json.dump(report, open(os.path.join(outdir, "gen_report.json"), "w"), indent=1)
     return report
 
